@@ -111,7 +111,8 @@ class HtmlGenerator(BaseScreen):
                 if isinstance(a, AttrSpec):
                     aspec = a
                 else:
-                    aspec = self._palette[a][{1: 1, 16: 0, 88: 2, 256: 3, 2**24: 4}[self.colors]]
+                    # names missing from the palette are drawn with the default attributes, as on a terminal
+                    aspec = self._palette.get(a, self._palette[None])[{1: 1, 16: 0, 88: 2, 256: 3, 2**24: 4}[self.colors]]
 
                 if y == cy and col <= cx:
                     run_width = str_util.calc_width(t_run, 0, len(t_run))
